@@ -1,55 +1,42 @@
-import Heph.Proofs.TransKotlinPrinted
-import Heph.Props.C12Scala
+import Heph.Proofs.TransScalaPrinted
 import Heph.Spec.Brackets
 /-!
-# C12 — translations are faithful to the program's declarations and annotations (Kotlin modelled)
+# C12 for the Scala translator — translations are faithful to the program's declarations and annotations
 
-Model: `Heph.TransKotlin` (the state-threading port of `src/translators/kotlin.py` shared with C11);
-a visit returns a `Doc`, a list of text pieces tagged with their origin, and the text is
-`flatten doc`.  `kotlinDoc package p` is the doc of `KotlinTranslator(package).visit(p)`.
+Model: `Heph.TransScala` (the state-threading port of `src/translators/scala.py` shared with C11); a visit
+returns a `Doc` (text pieces tagged with their origin, the Kotlin model's `Tag`s), the text is
+`flatten doc`; `scalaDoc package p` is the doc of `ScalaTranslator(package).visit(p)`.  The IR side is
+`sem n` / `semProgram p` (`Spec/TransScalaSem.lean`): the non-layout pieces the program calls for, in
+print order, computed from the IR alone; `inventory p` is its restriction to declaration tags.
 
-The IR side is `sem n` / `semProgram p` (`Proofs/TransKotlinDoc.lean`): the list of non-layout
-pieces the program calls for — every declaration with the modifiers Kotlin expresses, super-class
-clauses, bounds, type annotations the program carries, explicit type-argument lists, literals,
-operators, name references — in print order, computed from the IR alone (no translator state);
-`inventory p` (`Model/TransKotlin.lean`) is its restriction to declaration tags.
+Proved for ALL programs, every package and — through C11's `Scala.history_independent` — every history:
 
-What is proved, for ALL programs (any `Node` tree, typed or not), every package and — through C11's
-`history_independent` — every history of the translator object:
+* `doc_tags`, `doc_tags_history` — the tags of the non-layout pieces of the doc are those of `semProgram p`, in order.
+* `doc_inventory` — `declTags (scalaDoc package p) = inventory p`.
+* `doc_pieces_partial` — tags AND texts equal `semProgram p` when `condOK p` (the condition of every
+  conditional is an expression other than a lambda or a `new`); the full statement `doc_pieces` is refuted by
+  `doc_pieces_counterexample` (`visit_conditional` cuts `self.ident` characters off the condition's text;
+  replayed on the real `ScalaTranslator` by the harness).
+* `tag_in_doc_iff` / `piece_in_doc_iff`, and from them `annot_iff_var`, `annot_iff_ret`, `annot_iff_targs`
+  (every program): a type annotation of variable `v` / return-type annotation of `f` / explicit
+  type-argument list of a call of `f` is printed iff the program has such a declaration carrying a type
+  (`var_type` / `ret_type` not `None`) / such a call with `can_infer_type_args = False` and type arguments;
+  `annot_var_text`, `annot_ret_text`, `annot_targs_text`, `new_piece_text` (`condOK`): what is printed is the
+  declared type (`[A,B]` for type arguments; the bare class name of a `new` iff its type arguments can be inferred).
+* `literals_ops_present`, `literals_ops_tags`, `literal_piece_iff`, `operator_piece_iff`.
+* `balanced` is stated and REFUTED as stated (`balanced_counterexample`, the same cut).
 
-* `doc_tags` — the tags of the non-layout pieces of the doc are exactly those of `semProgram p`, in order.
-* `doc_inventory` — `declTags (kotlinDoc package p) = inventory p` (every class, type parameter, field,
-  super-class clause, function, parameter, variable exactly once, under its name, in order; annotation
-  tags exactly where the program carries a type).
-* `doc_pieces_partial` — tags AND texts of all non-layout pieces equal `semProgram p` when `condOK p`
-  (the condition of every conditional is an expression other than a lambda); the full statement
-  `doc_pieces` is refuted by `doc_pieces_counterexample` (`visit_conditional` cuts `self.ident`
-  characters off the condition's text; replayed on the real code by the harness).
-* `annot_iff_var`, `annot_iff_ret`, `annot_iff_targs`, `annot_iff_new` — local form: the piece that
-  follows a variable's / function's declaration piece is its type annotation iff the program carries
-  one (`var_type` / `ret_type` is not `None`), explicit type arguments are printed iff
-  `can_infer_type_args` is false (and there are any); with the printed text.
-* `tag_in_doc_iff` / `piece_in_doc_iff` — a non-layout tag (piece) occurs in the doc iff one of the nodes the
-  translator visits (`printed`) contributes it (`own`); hence
-* `annot_iff_var`, `annot_iff_ret`, `annot_iff_targs` (every program): a type annotation of variable `v` /
-  return-type annotation of `f` / explicit type-argument list of a call of `f` is printed iff the program has
-  such a declaration carrying a type (`var_type` / `ret_type` not `None`) / such a call with
-  `can_infer_type_args = False` and type arguments; `annot_var_text`, `annot_ret_text` (`condOK`): what is
-  printed is the declared type.
-* `literals_ops_present` (`condOK`): every piece a visited node calls for — in particular every literal and
-  operator — is in the doc and its text is a part of the emitted text; `literals_ops_tags` (every program);
-  `literal_piece_iff`: conversely every literal piece is a literal of the program.
-* `balanced` — stated (`Spec/Brackets.lean`: `()`, `[]`, `{}` properly nested) and REFUTED as stated:
-  `balanced_counterexample` (the cut in `visit_conditional` removes the `{` of a lambda condition).  The
-  positive part (`condOK p` → balanced) is not proved yet; the harness checks the balance of every real text.
+"Printed" means `printed` (`Spec/TransScalaSem.lean`): every node the translator visits except the
+arguments of `New(Any)`, whose text `visit_new` drops (`1.asInstanceOf[Any]`).
 -/
-namespace Heph.Props.C12
-open Heph Heph.TransKotlin Heph.Brackets
--- the Scala translator: `Props/C12Scala.lean` (namespace `Heph.Props.C12.Scala`, imported above and audited with this file)
+namespace Heph.Props.C12.Scala
+open Heph Heph.TransScala Heph.Brackets
+open Heph.TransKotlin (Tag Piece Doc flatten initObj St Obj declTags obs noOther packageLine
+  declTags_obs obs_true_noOther tag_mem_iff_of_obs_false mem_obs_true piece_infix)
 
 /-- tags of the non-layout pieces, in order: doc = what the program calls for (every program) -/
 theorem doc_tags (package : Option String) (p : Program) :
-    obs false (kotlinDoc package p) = obs false (semProgram p) :=
+    obs false (scalaDoc package p) = obs false (semProgram p) :=
   obs_programDoc false _ p (okAtL_false _)
 
 /-- the same after any history of translations by the same object -/
@@ -59,20 +46,20 @@ theorem doc_tags_history (package : Option String) (ps : List Program) (p : Prog
 
 /-- the declaration tags of the doc, in order, are the inventory computed from the IR -/
 theorem doc_inventory (package : Option String) (p : Program) :
-    declTags (kotlinDoc package p) = inventory p := by
+    declTags (scalaDoc package p) = inventory p := by
   rw [← declTags_obs false, doc_tags, declTags_obs, semProgram, inventory, declTags_semL]
 
 /-- full-strength statement about texts: the non-layout pieces (tags and texts) are `semProgram p` -/
 def doc_pieces : Prop :=
-  ∀ (package : Option String) (p : Program), obs true (kotlinDoc package p) = semProgram p
+  ∀ (package : Option String) (p : Program), obs true (scalaDoc package p) = semProgram p
 
 /-- proved part: programs in which the condition of every conditional is an expression whose text
-    starts with its indentation (every expression kind except a lambda).  Missing for the full
-    statement: `visit_conditional` removes `self.ident` leading characters of the condition's text
+    starts with its indentation (every expression kind except a lambda and a `new`).  Missing for the
+    full statement: `visit_conditional` removes `self.ident` leading characters of the condition's text
     whatever they are. -/
 theorem doc_pieces_partial (package : Option String) (p : Program) (h : condOK p = true) :
-    obs true (kotlinDoc package p) = semProgram p := by
-  rw [kotlinDoc, obs_programDoc true _ p h, semProgram, obs_true_noOther _ (noOther_semL _)]
+    obs true (scalaDoc package p) = semProgram p := by
+  rw [scalaDoc, obs_programDoc true _ p h, semProgram, obs_true_noOther _ (noOther_semL _)]
 
 /-- the text (not only the tags) is independent of the state a declaration is visited in -/
 theorem node_pieces (st : St) (n : Node) (h : okAt true n = true) : obs true (visit st n).2 = sem n := by
@@ -80,10 +67,9 @@ theorem node_pieces (st : St) (n : Node) (h : okAt true n = true) : obs true (vi
 
 /-! ## annotations, literals, operators: piece by piece -/
 
-
 /-- a non-layout tag occurs in the doc iff a printed node of the program calls for it (every program) -/
 theorem tag_in_doc_iff (package : Option String) (p : Program) (t : Tag) (ht : t ≠ Tag.other) :
-    (∃ x, (t, x) ∈ kotlinDoc package p) ↔ ∃ m ∈ printedL p.decls, ∃ x, (t, x) ∈ own m := by
+    (∃ x, (t, x) ∈ scalaDoc package p) ↔ ∃ m ∈ printedL p.decls, ∃ x, (t, x) ∈ own m := by
   rw [tag_mem_iff_of_obs_false (doc_tags package p) t ht]
   simp only [semProgram, mem_semL, Own]
   constructor
@@ -93,10 +79,9 @@ theorem tag_in_doc_iff (package : Option String) (p : Program) (t : Tag) (ht : t
 /-- with texts, when `condOK p` -/
 theorem piece_in_doc_iff (package : Option String) (p : Program) (h : condOK p = true) (pc : Piece)
     (hpc : pc.1 ≠ Tag.other) :
-    pc ∈ kotlinDoc package p ↔ ∃ m ∈ printedL p.decls, pc ∈ own m := by
-  have e : obs true (kotlinDoc package p) = semProgram p := by
-    rw [kotlinDoc, obs_programDoc true _ p h, semProgram, obs_true_noOther _ (noOther_semL _)]
-  have := mem_obs_true pc (kotlinDoc package p)
+    pc ∈ scalaDoc package p ↔ ∃ m ∈ printedL p.decls, pc ∈ own m := by
+  have e : obs true (scalaDoc package p) = semProgram p := doc_pieces_partial package p h
+  have := mem_obs_true pc (scalaDoc package p)
   rw [e, semProgram, mem_semL] at this
   constructor
   · intro hm; exact this.mpr ⟨hm, hpc⟩
@@ -105,7 +90,7 @@ theorem piece_in_doc_iff (package : Option String) (p : Program) (h : condOK p =
 /-- a type annotation of variable `v` is printed iff the program has a variable declaration `v` that
     carries a declared type (every program: an erased annotation is absent, an overwritten one present) -/
 theorem annot_iff_var (package : Option String) (p : Program) (v : String) :
-    (∃ x, (Tag.varAnnot v, x) ∈ kotlinDoc package p) ↔
+    (∃ x, (Tag.varAnnot v, x) ∈ scalaDoc package p) ↔
       ∃ e f t i, Node.varDecl v e f (some t) i ∈ printedL p.decls := by
   rw [tag_in_doc_iff package p _ (by simp)]
   constructor
@@ -117,7 +102,7 @@ theorem annot_iff_var (package : Option String) (p : Program) (v : String) :
 
 /-- …and what is printed is the declared type (`condOK p`) -/
 theorem annot_var_text (package : Option String) (p : Program) (h : condOK p = true) (v x : String) :
-    (Tag.varAnnot v, x) ∈ kotlinDoc package p ↔
+    (Tag.varAnnot v, x) ∈ scalaDoc package p ↔
       ∃ e f t i, Node.varDecl v e f (some t) i ∈ printedL p.decls ∧ x = ": " ++ typeName t := by
   rw [piece_in_doc_iff package p h _ (by simp)]
   constructor
@@ -128,7 +113,7 @@ theorem annot_var_text (package : Option String) (p : Program) (h : condOK p = t
     exact ⟨_, hm, (varAnnot_own v _ _).mpr ⟨e, f, t, i, rfl, hxt⟩⟩
 
 theorem annot_iff_ret (package : Option String) (p : Program) (f : String) :
-    (∃ x, (Tag.retAnnot f, x) ∈ kotlinDoc package p) ↔
+    (∃ x, (Tag.retAnnot f, x) ∈ scalaDoc package p) ↔
       ∃ ps t inf body fin ov tps ft, Node.funcDecl f ps (some t) inf body fin ov tps ft ∈ printedL p.decls := by
   rw [tag_in_doc_iff package p _ (by simp)]
   constructor
@@ -139,7 +124,7 @@ theorem annot_iff_ret (package : Option String) (p : Program) (f : String) :
     exact ⟨_, hm, _, (retAnnot_own f _ _).mpr ⟨ps, t, inf, body, fin, ov, tps, ft, rfl, rfl⟩⟩
 
 theorem annot_ret_text (package : Option String) (p : Program) (h : condOK p = true) (f x : String) :
-    (Tag.retAnnot f, x) ∈ kotlinDoc package p ↔
+    (Tag.retAnnot f, x) ∈ scalaDoc package p ↔
       ∃ ps t inf body fin ov tps ft, Node.funcDecl f ps (some t) inf body fin ov tps ft ∈ printedL p.decls ∧
         x = ": " ++ typeName t := by
   rw [piece_in_doc_iff package p h _ (by simp)]
@@ -153,7 +138,7 @@ theorem annot_ret_text (package : Option String) (p : Program) (h : condOK p = t
 /-- an explicit type-argument list of a call of `f` is printed iff the program has a call of `f` with
     type arguments whose `can_infer_type_args` is false -/
 theorem annot_iff_targs (package : Option String) (p : Program) (f : String) :
-    (∃ x, (Tag.targs f, x) ∈ kotlinDoc package p) ↔
+    (∃ x, (Tag.targs f, x) ∈ scalaDoc package p) ↔
       ∃ args recv targs rc, Node.call f args recv targs false rc ∈ printedL p.decls ∧ targs ≠ [] := by
   rw [tag_in_doc_iff package p _ (by simp)]
   constructor
@@ -163,11 +148,39 @@ theorem annot_iff_targs (package : Option String) (p : Program) (f : String) :
   · rintro ⟨args, recv, targs, rc, hm, hne⟩
     exact ⟨_, hm, _, (targs_own f _ _).mpr ⟨args, recv, targs, rc, rfl, hne, rfl⟩⟩
 
+/-- …printed as `[A,B]` (`condOK p`) -/
+theorem annot_targs_text (package : Option String) (p : Program) (h : condOK p = true) (f x : String) :
+    (Tag.targs f, x) ∈ scalaDoc package p ↔
+      ∃ args recv targs rc, Node.call f args recv targs false rc ∈ printedL p.decls ∧ targs ≠ [] ∧
+        x = "[" ++ ",".intercalate (targs.map typeName) ++ "]" := by
+  rw [piece_in_doc_iff package p h _ (by simp)]
+  constructor
+  · rintro ⟨m, hm, hx⟩
+    obtain ⟨args, recv, targs, rc, rfl, hne, hxt⟩ := (targs_own f x m).mp hx
+    exact ⟨args, recv, targs, rc, hm, hne, hxt⟩
+  · rintro ⟨args, recv, targs, rc, hm, hne, hxt⟩
+    exact ⟨_, hm, (targs_own f _ _).mpr ⟨args, recv, targs, rc, rfl, hne, hxt⟩⟩
+
+/-- the class of a `new` is printed with its type arguments iff they cannot be inferred
+    (`explicit = !can_infer_type_args`); `New(Any)` is `1.asInstanceOf[Any]` (`condOK p`) -/
+theorem new_piece_text (package : Option String) (p : Program) (h : condOK p = true) (explicit : Bool) (x : String) :
+    (Tag.newT explicit, x) ∈ scalaDoc package p ↔
+      ∃ t args, Node.newE t args (!explicit) ∈ printedL p.decls ∧
+        x = (if TransKotlin.isCls t clsAny then "1.asInstanceOf[Any]"
+             else if explicit then typeName t else TransKotlin.attrName t) := by
+  rw [piece_in_doc_iff package p h _ (by simp)]
+  constructor
+  · rintro ⟨m, hm, hx⟩
+    obtain ⟨t, args, rfl, hxt⟩ := (newT_own explicit x m).mp hx
+    exact ⟨t, args, hm, hxt⟩
+  · rintro ⟨t, args, hm, hxt⟩
+    exact ⟨_, hm, (newT_own explicit x _).mpr ⟨t, args, rfl, hxt⟩⟩
+
 /-- every piece a printed node calls for — in particular every literal and every operator of the
     program — is in the doc, and its text is a part of the emitted text (`condOK p`) -/
 theorem literals_ops_present (package : Option String) (p : Program) (h : condOK p = true)
     (m : Node) (hm : m ∈ printedL p.decls) (pc : Piece) (hpc : pc ∈ own m) :
-    pc ∈ kotlinDoc package p ∧ ∃ a b, flatten (kotlinDoc package p) = a ++ pc.2 ++ b := by
+    pc ∈ scalaDoc package p ∧ ∃ a b, flatten (scalaDoc package p) = a ++ pc.2 ++ b := by
   have hno : pc.1 ≠ Tag.other := by
     have h1 : pc ∈ semL p.decls := (mem_semL pc p.decls).mpr ⟨m, hm, hpc⟩
     have h2 := noOther_semL p.decls
@@ -179,7 +192,7 @@ theorem literals_ops_present (package : Option String) (p : Program) (h : condOK
 /-- for every program (no hypothesis): the tag of every such piece occurs -/
 theorem literals_ops_tags (package : Option String) (p : Program)
     (m : Node) (hm : m ∈ printedL p.decls) (t : Tag) (x : String) (hpc : (t, x) ∈ own m) :
-    ∃ y, (t, y) ∈ kotlinDoc package p := by
+    ∃ y, (t, y) ∈ scalaDoc package p := by
   have hno : t ≠ Tag.other := by
     have h1 : (t, x) ∈ semL p.decls := (mem_semL _ p.decls).mpr ⟨m, hm, hpc⟩
     have h2 := noOther_semL p.decls
@@ -187,20 +200,20 @@ theorem literals_ops_tags (package : Option String) (p : Program)
     exact h2 _ h1
   exact (tag_in_doc_iff package p t hno).mpr ⟨m, hm, x, hpc⟩
 
-/-- the literals: a string / char / number / Boolean constant of the program is printed with its text -/
+/-- a string constant of the program is printed with its text -/
 theorem string_literal_present (package : Option String) (p : Program) (h : condOK p = true) (lit : String)
     (hm : Node.stringC lit ∈ printedL p.decls) :
-    ∃ a b, flatten (kotlinDoc package p) = a ++ lit ++ b :=
+    ∃ a b, flatten (scalaDoc package p) = a ++ lit ++ b :=
   (literals_ops_present package p h _ hm (Tag.lit, lit) (by simp [own])).2
 
 theorem operator_present (package : Option String) (p : Program) (h : condOK p = true) (k op : String) (l r : Node)
     (hm : Node.binop k l r op ∈ printedL p.decls) :
-    (Tag.op, op) ∈ kotlinDoc package p :=
+    (Tag.op, op) ∈ scalaDoc package p :=
   (literals_ops_present package p h _ hm (Tag.op, op) (by simp [own])).1
 
 /-- conversely a literal piece of the doc is a literal of the program -/
 theorem literal_piece_iff (package : Option String) (p : Program) (h : condOK p = true) (x : String) :
-    (Tag.lit, x) ∈ kotlinDoc package p ↔
+    (Tag.lit, x) ∈ scalaDoc package p ↔
       ∃ m ∈ printedL p.decls, (∃ t, m = .intC x t) ∨ (∃ t, m = .realC x t) ∨ m = .boolC x ∨ m = .charC x ∨
         m = .stringC x := by
   rw [piece_in_doc_iff package p h _ (by simp)]
@@ -208,25 +221,42 @@ theorem literal_piece_iff (package : Option String) (p : Program) (h : condOK p 
   · rintro ⟨m, hm, hx⟩; exact ⟨m, hm, (lit_own x m).mp hx⟩
   · rintro ⟨m, hm, hx⟩; exact ⟨m, hm, (lit_own x m).mpr hx⟩
 
+/-- …and an operator piece is the operator of a binary operation of the program, or the `isInstanceOf` of an
+    `is` / `!is` (Scala prints both alike: `visit_is` ignores `operator.is_not`) -/
+theorem operator_piece_iff (package : Option String) (p : Program) (h : condOK p = true) (x : String) :
+    (Tag.op, x) ∈ scalaDoc package p ↔
+      ∃ m ∈ printedL p.decls, (∃ k l r, m = .binop k l r x) ∨ (∃ e t b, m = .isE e t b ∧ x = "isInstanceOf") := by
+  rw [piece_in_doc_iff package p h _ (by simp)]
+  constructor
+  · rintro ⟨m, hm, hx⟩; exact ⟨m, hm, (op_own x m).mp hx⟩
+  · rintro ⟨m, hm, hx⟩; exact ⟨m, hm, (op_own x m).mpr hx⟩
+
 /-! ## the cut in `visit_conditional` -/
 
-def tyAny : Ty := .builtin "<class 'src.ir.kotlin_types.AnyType'>" "Any" false false []
-def tyInt : Ty := .builtin "<class 'src.ir.kotlin_types.IntegerType'>" "Int" false false [tyAny]
-def tyLong : Ty := .builtin "<class 'src.ir.kotlin_types.LongType'>" "Long" false false [tyAny]
+def tyAny : Ty := .builtin "<class 'src.ir.scala_types.AnyType'>" "Any" false false []
+def tyInt : Ty := .builtin "<class 'src.ir.scala_types.IntegerType'>" "Int" false false [tyAny]
+def tyLong : Ty := .builtin "<class 'src.ir.scala_types.LongType'>" "Long" false false [tyAny]
 
-/-- `if ({x: Int -> true}) 1 else 2` (a lambda as the condition; never generated: not Boolean) -/
+/-- `if ((x: Int) => true) 1 else 2` (a lambda as the condition; never generated: not Boolean) -/
 def badCond : Program := {
-  lang := "kotlin",
+  lang := "scala",
   decls := [.cond (.lambda "l" [.paramDecl "x" tyInt false none] none (.boolC "true") none)
               (.intC "1" none) (.intC "2" none) none],
   context := [] }
 
-example : flatten (kotlinDoc none badCond) = "(if (: Int -> true})\n  1\nelse\n  2)" := by decide +kernel
+/-- `if (new B()) 1 else 2`: `new` is printed before the indentation, so the cut removes `ne` -/
+def badCondNew : Program := {
+  lang := "scala",
+  decls := [.cond (.newE (.simple "B" []) [] false) (.intC "1" none) (.intC "2" none) none],
+  context := [] }
+
+example : flatten (scalaDoc none badCond) = "(if (: Int) => true) then\n  1\nelse\n  2)" := by decide +kernel
+example : flatten (scalaDoc none badCondNew) = "(if (w   B()) then\n  1\nelse\n  2)" := by decide +kernel
 example : semProgram badCond =
     [(Tag.paramD "x", "x: Int"), (Tag.lit, "true"), (Tag.lit, "1"), (Tag.lit, "2")] := by decide +kernel
 
-/-- the code violates the full statement: the opening brace of the lambda and the parameter's name
-    are cut off (the harness replays this on the real `KotlinTranslator`) -/
+/-- the code violates the full statement: the opening parenthesis of the lambda and the parameter's name
+    are cut off (the harness replays this on the real `ScalaTranslator`) -/
 theorem doc_pieces_counterexample : ¬ doc_pieces := by
   intro h
   exact absurd (h none badCond) (by decide +kernel)
@@ -238,7 +268,7 @@ theorem doc_pieces_counterexample : ¬ doc_pieces := by
 def balanced : Prop :=
   ∀ (package : Option String) (p : Program),
     (∀ pc ∈ semProgram p, Neutral pc.2) → Neutral (packageLine package) →
-    Balanced (flatten (kotlinDoc package p))
+    Balanced (flatten (scalaDoc package p))
 
 theorem neutral_of_no_brackets (s : String)
     (h : ∀ c ∈ s.toList, c ≠ '(' ∧ c ≠ ')' ∧ c ≠ '[' ∧ c ≠ ']' ∧ c ≠ '{' ∧ c ≠ '}') : Neutral s := by
@@ -251,7 +281,7 @@ theorem neutral_of_no_brackets (s : String)
     simp only [run, step, hc.1, hc.2.1, hc.2.2.1, hc.2.2.2.1, hc.2.2.2.2.1, hc.2.2.2.2.2, or_self, if_false]
     exact ih stk (fun d hd => h d (List.mem_cons_of_mem _ hd))
 
-/-- the code violates it: for `if ({x: Int -> true}) 1 else 2` the opening brace of the lambda is cut off
+/-- the code violates it: for `if ((x: Int) => true) 1 else 2` the opening parenthesis of the lambda is cut off
     by `visit_conditional` although every piece the program calls for is bracket-free -/
 theorem balanced_counterexample : ¬ balanced := by
   intro h
@@ -265,21 +295,22 @@ theorem balanced_counterexample : ¬ balanced := by
   revert hb
   decide +kernel
 
-example : ¬ Balanced (flatten (kotlinDoc none badCond)) := by decide +kernel
+example : ¬ Balanced (flatten (scalaDoc none badCond)) := by decide +kernel
 
-/-! ## non-vacuity: the demo program of C11 -/
+/-! ## non-vacuity: a demo program -/
 
-/-- `open class B(open val x: Int)`, `class A<T: Any>(override val x: Int): B(1) { fun f(a: Int): Long = … }`,
-    `fun g(): Int { val v = 3 ; return v }`, `fun h() = if (v < 3) g() else id<Int>(2)` with an erased return type -/
+/-- `open class B(val x: Int)`, `class A[+T <: Any](final override val x: Int) extends B(1) { final def f … }`,
+    `def g(): Int = { val v = 3; return v; }`, `def h() = (if ((v < 3)) then `g`() else `id`[Int](2))` with an
+    erased return type -/
 def demo : Program := {
-  lang := "kotlin",
+  lang := "scala",
   decls := [
     .classDecl "B" 0 false [.fieldDecl "x" tyInt true true false] [] [] [],
     .classDecl "A" 0 true [.fieldDecl "x" tyInt true false true]
       [.superInst (.simple "B" []) (some [.intC "1" (some tyInt)])]
       [.funcDecl "f" [.paramDecl "a" tyInt false none] (some tyLong) (some tyLong)
          (some (.intC "-2" (some tyLong))) true false [] 0]
-      [.tparam "T" 0 none],
+      [.tparam "T" 1 none],
     .funcDecl "g" [] (some tyInt) (some tyInt)
       (some (.block [.varDecl "v" (.intC "3" (some tyInt)) true none (some tyInt), .variable "v"] true))
       true false [] 1,
@@ -295,11 +326,11 @@ example : inventory demo =
     [Tag.classD "B", Tag.fieldD "x", Tag.classD "A", Tag.tparamD "T", Tag.fieldD "x", Tag.superT,
      Tag.funcD "f", Tag.paramD "a", Tag.retAnnot "f", Tag.funcD "g", Tag.retAnnot "g", Tag.varD "v",
      Tag.funcD "h", Tag.targs "id"] := by decide +kernel
-example : declTags (kotlinDoc (some "src.pkg") demo) = inventory demo := doc_inventory _ _
-example : obs true (kotlinDoc (some "src.pkg") demo) = semProgram demo := doc_pieces_partial _ _ (by decide +kernel)
+example : declTags (scalaDoc (some "src.pkg") demo) = inventory demo := doc_inventory _ _
+example : obs true (scalaDoc (some "src.pkg") demo) = semProgram demo := doc_pieces_partial _ _ (by decide +kernel)
 example : (Tag.retAnnot "h", ": Int") ∉ semProgram demo ∧ (Tag.retAnnot "g", ": Int") ∈ semProgram demo ∧
-    (Tag.targs "id", "<Int>") ∈ semProgram demo ∧ (Tag.op, "<") ∈ semProgram demo := by decide +kernel
+    (Tag.targs "id", "[Int]") ∈ semProgram demo ∧ (Tag.op, "<") ∈ semProgram demo := by decide +kernel
+example : Balanced (flatten (scalaDoc (some "src.pkg") demo)) := by decide +kernel
+example : Node.stringC "s" ∈ printedL [.varDecl "v" (.stringC "s") true none none] := by simp [printedL, printed]
 
-example : Balanced (flatten (kotlinDoc (some "src.pkg") demo)) := by decide +kernel
-
-end Heph.Props.C12
+end Heph.Props.C12.Scala
